@@ -60,7 +60,17 @@ type Macro struct {
 	Body   string
 }
 
+type Theorem struct {
+	Label string
+	Props []string
+	Vars  [][2]string
+	Body  string
+	File  string
+	Line  int
+}
+
 type Contracts struct {
+	Theorems []*Theorem
 	Macros  map[string]*Macro
 	Funcs   map[string]*FuncContract // key: pkgpath + "::" + name  (repo) or full name (lib)
 	Lemmas  []*Lemma
@@ -73,6 +83,7 @@ var clauseKinds = map[string]bool{"requires": true, "ensures": true, "invariant"
 	"fswrite": true, "assume": true, "assert": true, "params": true, "pure": true, "replay": true, "sweep": true,
 	"decreases": true, "opt": true, "frame": true, "impure": true, "guide": true, "at-call": true, "ghost": true, "sets": true, "slice-invariant": true, "havocs": true, "fsread": true}
 
+var theoremRe = regexp.MustCompile(`^(\S+)\s*\(([^)]*)\)\s*:\s*(.*)$`)
 var lemmaPatRe = regexp.MustCompile(`^([A-Za-z_][A-Za-z0-9_.]*)\(([^)]*)\)\s*`)
 
 var propRe = regexp.MustCompile(`^C[0-9]{2,3}$`)
@@ -198,6 +209,22 @@ func (cs *Contracts) parseContractFile(file string, repo bool, pkgPath string) e
 			curLemma = &Lemma{Fn: m[1], Params: ps, Pats: pats, Label: label, Body: body, File: file, Line: ln}
 			cs.Lemmas = append(cs.Lemmas, curLemma)
 			last = &curLemma.Body
+		case word == "theorem":
+			cur, curLemma = nil, nil
+			// theorem LABEL (x String, y Int): body
+			m := theoremRe.FindStringSubmatch(rest)
+			if m == nil {
+				return fmt.Errorf("%s:%d: bad theorem header", file, ln)
+			}
+			th := &Theorem{Label: m[1], Props: propsOf(m[1]), Body: strings.TrimSpace(m[3]), File: file, Line: ln}
+			for _, v := range strings.Split(m[2], ",") {
+				f := strings.Fields(v)
+				if len(f) == 2 {
+					th.Vars = append(th.Vars, [2]string{f[0], f[1]})
+				}
+			}
+			cs.Theorems = append(cs.Theorems, th)
+			last = &th.Body
 		case word == "macro":
 			cur, curLemma = nil, nil
 			// macro name(x, y): body
